@@ -12,6 +12,8 @@ def canon(t):
         return t
     if t and t[0] == 'cast':
         return canon(t[1])
+    if len(t) == 3 and t[0] == 'param':
+        return ('param', t[1], None)          # parameter names are not part of the meaning
     if len(t) == 4 and t[0] == 'call':
         return ('call', t[1], canon(t[2]), None)
     return tuple(canon(x) for x in t)
